@@ -517,6 +517,8 @@ def check_result(case):
                 LineageVolumeCellState(v0=1.5, t0=t0, state=np.array(case["vec"], dtype=float), volume=2.0, time=tm,
                                        divided=case["flags"][0], dead=case["flags"][1])]
         for o in objs:
+            if case.get("times"):
+                o.py_set_time(tm)          # the time as a simulator leaves it: written by the setter
             c = clone_chain(res, o, how, type(o).__name__)
             if c is None:
                 continue
